@@ -71,6 +71,14 @@ add("internal/sync/mutex.go", [
     # instant. Hand-off is made FIFO after the first failed attempt (a legal behaviour of sync.Mutex).
     ("\tstarvationThresholdNs = 1e6\n", "\tstarvationThresholdNs = -1 // sim\n", 1),
 ])
+# RWMutex.RLock is a scheduling point too: check-then-act splits across two read-locked sections are only
+# visible if a writer can run between them
+add("sync/rwmutex.go", [
+    ("func (rw *RWMutex) RLock() {\n", "func (rw *RWMutex) RLock() {\n\truntime_simMaybeYield()\n", 1),
+])
+add("sync/runtime.go", [
+    ("package sync\n", "package sync\n", 1),
+])
 add("internal/sync/runtime.go", [
     ("package sync\n", "package sync\n", 1),
 ])
@@ -79,6 +87,11 @@ p = repl[os.path.join(GOROOT, "src", "internal/sync/runtime.go")]
 t = open(p).read()
 if "import _ \"unsafe\"" not in t and "\"unsafe\"" not in t:
     die("internal/sync/runtime.go: no unsafe import")
+open(p, "a").write("\n//go:linkname runtime_simMaybeYield\nfunc runtime_simMaybeYield()\n")
+p = repl[os.path.join(GOROOT, "src", "sync/runtime.go")]
+t = open(p).read()
+if "\"unsafe\"" not in t:
+    die("sync/runtime.go: no unsafe import")
 open(p, "a").write("\n//go:linkname runtime_simMaybeYield\nfunc runtime_simMaybeYield()\n")
 
 zs = os.path.join(rt, "zsim.go")
